@@ -127,16 +127,21 @@ def check_pkesk_selection(rep, prog, rid):
 
 
 def check_hash_object(rep, prog, rid, construct, text, S, where, scenario=None):
-    """The hash object handed to the key material must be the `cryptography` hash named like the signature's hash algorithm."""
-    direct = 'getattr(hashes, %s.hash_algorithm.name)()' % S
-    if text == direct:
+    """The hash object handed to the key material must be the `cryptography` hash named like the signature's hash algorithm.
+    `text` is the interpreter's value text of the argument (locals already resolved); S the text of the signature object.  The
+    algorithm may be read through the PGPSignature property or the packet field it returns (C05.5 pins that getter)."""
+    algs = ['%s.hash_algorithm' % S, '%s._signature.halg' % S]
+    direct = ['getattr(hashes, %s.name)()' % a for a in algs]
+    if text in direct:
         rep.ok(rid, construct, 'hash object %s' % text, scenario=scenario)
         return True
-    m = re.match(r'^%s\.hash_algorithm\.([A-Za-z_][A-Za-z0-9_]*)(\(\))?$' % re.escape(S), text or '')
+    m = None
+    for a in algs:
+        m = m or re.match(r'^%s\.([A-Za-z_][A-Za-z0-9_]*)(\(\))?$' % re.escape(a), text or '')
     if not m:
         rep.violation(rid, construct, 'hash argument %s' % text,
                       'the hash object must be built from the hash algorithm of the signature being processed', where=where,
-                      expected=direct, found=text, scenario=scenario)
+                      expected=direct[0], found=text, scenario=scenario)
         return False
     ci = prog.cls('pgpy.constants', 'HashAlgorithm')
     g = ci.methods.get(m.group(1))
